@@ -311,6 +311,7 @@ fn dispatch_c14(cmd: &str, args: &[String], tier: &String, seed: u64, out: &Stri
             props::c14::run(&tier, seed, &out);
             0
         }
+        "c14-path" => props::c14::replay_path(&arg(&args, "--root").unwrap(), &arg(&args, "--moves").unwrap_or_default()),
         "c14-one" => props::c14::replay_one(&arg(&args, "--fen").unwrap()),
         "c14-sig" => props::c14::replay_sig(&arg(&args, "--fen").unwrap()),
         "c14-seq" => props::c14::replay_seq(arg(&args, "--a").unwrap().parse().unwrap(), arg(&args, "--b").unwrap().parse().unwrap(), arg(&args, "--c").unwrap().parse().unwrap()),
